@@ -588,7 +588,9 @@ def check_ldap(ctx, rng, reg, be):
         exp = norm_app(obj)
         view = view_app
     elif which == 'cell_alloc':
-        admin, obj, ident = be.cell_allocation(), gen_cell_alloc(rng), ['c1', 'tenant/alloc%d' % rng.randint(0, 5)]
+        # the tenant hierarchy (1-3 levels, ':'-separated) and the cell are kept in the DN of the entry
+        tenants = ':'.join(rng.sample(['tenant', 'ops', 'web', 'a-b', 'T9'], rng.choice([1, 1, 2, 3])))
+        admin, obj, ident = be.cell_allocation(), gen_cell_alloc(rng), [rng.choice(['c1', 'Cell-2']), '%s/alloc%d' % (tenants, rng.randint(0, 5))]
         exp = dict(obj)
         if 'assignments' in exp:
             exp['assignments'] = sorted(exp['assignments'], key=lambda a: a['pattern'])
@@ -647,6 +649,16 @@ def check_ldap(ctx, rng, reg, be):
     bad = subset_diff(exp, view(got))
     if bad:
         ctx.violation('ldap:%s:create-get-differs:%s' % (which, bad[0].split('[')[0]), '%r stored, read %r (%s)' % (obj, got, bad[:4]), case=case)
+    if which == 'cell_alloc':
+        # the part of the state that lives in the DN decodes to the id that was written
+        want_id = '%s/%s' % (ident[1], ident[0])
+        ctx.count('ldap_dn_ids_checked')
+        if ':' in ident[1]:
+            ctx.count('ldap_dn_ids_nested_tenant')
+        listed = [a.get('_id') for a in admin.list({'cell': ident[0]})]
+        if got.get('_id') != want_id or want_id not in listed:
+            ctx.violation('ldap:cell_alloc:dn-id-differs', 'reservation written as %r reads back with _id %r (listing: %r)' % (
+                want_id, got.get('_id'), listed[:6]), case=case)
     obj2 = {'app': gen_app, 'cell_alloc': gen_cell_alloc, 'partition': gen_partition}[which](rng)
     if which == 'app':
         admin.replace(ident, copy.deepcopy(obj2))        # the product replaces applications (api/app.py)
